@@ -6,6 +6,10 @@ use crate::core::{Footer, Header, PasetoError, Public, V1};
 
 impl CipherText<V1, Public> {
     pub(crate) fn try_verify(decoded_payload: &[u8], public_key: &impl AsRef<[u8]>, footer: &Footer) -> Result<Self, PasetoError> {
+        //a payload shorter than the signature cannot be a token
+        if decoded_payload.len() < 256 {
+            return Err(PasetoError::IncorrectSize);
+        }
         let signature = decoded_payload[(decoded_payload.len() - 256)..].as_ref();
         let public_key = UnparsedPublicKey::new(&RSA_PSS_2048_8192_SHA384, public_key);
         let msg = decoded_payload[..(decoded_payload.len() - 256)].as_ref();
